@@ -20,7 +20,10 @@ LEVEL_NOTE = ("theorems are about model/CopyOps.v (copy_ecu, copy_frame, copy_ec
               "C12_shared_names_refuted and replayed as an observation), equal-named definitions are both ENUM or both not "
               "(otherwise AttributeError, modelled as m_err and tied), no surrounding blanks / quotes in names and values; "
               "deletion of non-communicating target ECUs by direct_ecu_only is modelled and tied but not claimed either way; "
-              "environment variables of merge are modelled and tied, no theorem")
+              "environment variables of merge are modelled and tied, no theorem; the property fixes no ORDER of target.ecus / "
+              "target.frames / free signals / the define and attribute dicts / ENUM value lists: the oracle judges sets (which frames, "
+              "which ECUs, which definitions, the values), the tie compares normal forms modulo those orders (canon()), the model keeps "
+              "the order of the code it was read from")
 
 CATS = ("sig", "frame", "ecu", "glob")
 CATNUM = {"sig": 0, "frame": 1, "ecu": 2, "glob": 3}
